@@ -421,3 +421,66 @@ Definition c10_send_ok (mtu : Z) (o : sopts) (tok : bytes) (inface mark : option
    if single_frame_fits mtu o tok inface mark wire then (length frames =? 1)%nat && is_nil_list oversize else true,
    if negb (single_frame_fits mtu o tok inface mark wire) && negb (o_frag o)
    then is_nil_list frames && is_nil_list oversize else true).
+
+(* ---- projected observables of the send side: the oracle FOLLOWS THE SPLIT THE IMPLEMENTATION CHOSE.  C10 fixes neither the
+   fragment sizes nor the sequence numbers: whatever frames were emitted, a peer (the receive side of this model, current code) that
+   gets them - in the order sent, reversed, or rotated by half - must hand up exactly the packet bytes, once, with the packet's PIT
+   token and congestion mark; every frame carries the incoming-face indication iff it is enabled; the sequence numbers used lie in
+   the window [seq, next sequence) so that the next packet cannot collide with this one. ---- *)
+Definition frame_fields (frame : bytes) : option lpf :=
+  match pkt_decode (fun _ => DPkt None None None) frame with
+  | DecOk (DPkt _ _ (Some f)) => Some f
+  | DecOk (DPkt _ _ None) => Some (mkLpf None None None [] None None None None (Some frame))       (* a bare network packet *)
+  | _ => None
+  end.
+
+Fixpoint all_fields (frames : list bytes) : option (list lpf) :=
+  match frames with
+  | [] => Some []
+  | fr :: r => match frame_fields fr, all_fields r with Some f, Some l => Some (f :: l) | _, _ => None end
+  end.
+
+Definition optN_eqb (a b : option N) : bool :=
+  match a, b with Some x, Some y => x =? y | None, None => true | _, _ => false end.
+
+Fixpoint peer_collect (s : list (N * list bytes)) (fs : list lpf) (acc : list (bytes * bytes * option N))
+  : option (list (bytes * bytes * option N)) :=
+  match fs with
+  | [] => Some (rev acc)
+  | f :: r =>
+    match f_frag f with
+    | None => peer_collect s r acc
+    | Some frag =>
+      match lp_receive true true s f frag with
+      | LPanic => None
+      | LDrop s' => peer_collect s' r acc
+      | LUp s' payload => peer_collect s' r ((payload, f_tok f, f_mark f) :: acc)
+      end
+    end
+  end.
+
+Definition delivers_once (fs : list lpf) (wire tok : bytes) (mark : option N) : bool :=
+  match peer_collect [] fs [] with
+  | Some [(w, t, m)] => bytes_eqb w wire && bytes_eqb t tok && optN_eqb m mark
+  | _ => false
+  end.
+
+Definition rotate_half {A} (l : list A) : list A := let h := Nat.div2 (length l) in skipn h l ++ firstn h l.
+
+(* 0 = fine; 1 = a frame the peer cannot decode; 2, 3, 4 = the peer does not deliver exactly the packet, once, with token and mark
+   (frames in the order sent / reversed / rotated); 5 = incoming-face indication wrong on some frame; 6 = a sequence number outside
+   [seq, next) *)
+Definition c10_frames_sem (o : sopts) (seq next : N) (tok : bytes) (inface mark : option N) (wire : bytes) (frames : list bytes) : N :=
+  match all_fields frames with
+  | None => 1
+  | Some fs =>
+    if negb (delivers_once fs wire tok mark) then 2
+    else if negb (delivers_once (rev fs) wire tok mark) then 3
+    else if negb (delivers_once (rotate_half fs) wire tok mark) then 4
+    else if negb (forallb (fun f => optN_eqb (f_inface f) (if o_ifi o then inface else None)) fs) then 5
+    else if negb (forallb (fun f => match f_seq f with
+                                    | None => true
+                                    | Some q => u64 (q + two64 - seq) <? u64 (next + two64 - seq)
+                                    end) fs) then 6
+    else 0
+  end.
